@@ -409,8 +409,11 @@ def _rbgeom_hook(name, args, kwargs, node, ip):
         ref = ref.flat()[0]
     if G.is_rat(ref):
         k = G.int_of(ref)
-        if k is None or not -len(g) <= k < len(g):
+        if k is None:
             return NotImplemented
+        if not -len(g) <= k < len(g):
+            # rbgeom documents a scalar reference as a row number of `grids` (grids[refpoint]): numpy answers a row that does not exist with
+            raise N.PyError("IndexError", f"index {k} is out of bounds for axis 0 with size {len(g)} (rbgeom: grids[refpoint])")
         ref = g[k]
     elif isinstance(ref, (N.Arr, tuple, N.LVal)) and N.as_arr(ref).size == 3:
         ref = tuple(N.as_arr(ref).flat())
@@ -686,6 +689,8 @@ class _Scene:
 _MIXED = [("S", 5, False), ("G", 11, 2, False), ("G", 12, 1, True), ("G", 20, 1, False), ("G", 31, 3, False), ("S", 40, True)]
 _PERMUTED = [("G", 3, 3, False), ("S", 7, False), ("G", 8, 1, False), ("G", 9, 2, False), ("G", 10, 2, False), ("G", 14, 3, False), ("G", 16, 1, False)]
 _ALL_RECT = [("G", 4, 1, False), ("G", 6, 1, False), ("S", 2, True), ("G", 15, 1, False)]
+_CALLER_ORDER = [[("G", 15, 1, False), ("S", 9, False), ("G", 4, 1, False), ("G", 6, 1, False)],
+                 [("G", 6, 1, False), ("G", 12, 1, True), ("G", 15, 1, False), ("S", 2, True), ("G", 4, 1, False)]]
 _OFF_AXIS = [(1, 0, 0), (-1, 0, 0), (0, 1, 0), (0, -1, 0), (1, 1, 0), (1, -1, 0), (-1, 1, 0), (-1, -1, 0), (-1, 0, 2), (0, -1, -3),
              (1, 0, -1), (0, 2, -2), (3, -3, 1), (-3, 4, -5), (3, 4, 5), (Fraction(1, 1000), 0, 0), (0, Fraction(-1, 1000), 0),
              (Fraction(1, 1000), Fraction(-1, 1000), 5)]
@@ -816,6 +821,29 @@ def r2_local_frames(ctx):
             w6 = wrong_blocks(scene, next(i for i in scene.grids if i["id"] == 6)["X"])
             _decide(ctx, results, lambda res: not w6(res), "rbgeom_uset: a grid id given as reference point stands for the location of that grid (looked up "
                     "among the grids that were selected)", fn, lambda res: {"grids (id: type) with a wrong block": w6(res)})
+    # ---- a grid id as reference point on tables whose rows are in the caller's order: nothing establishes that the ids of a USET table ascend
+    # (addgrid appends in the order given), so a look-up that presupposes an order (bisection, rank among the ids, position among the
+    # sorted ids) is decided by value on these witness tables; labels are touched only through comparison / equality
+    if results is not None:
+        for spec in _CALLER_ORDER:
+            order = ", ".join(str(e[1]) + ("" if e[0] == "G" else " (scalar)") + (" (q-set)" if e[-1] else "") for e in spec)
+            bad, stop = {}, False
+            nodes = [e[1] for e in spec if e[0] == "G" and not e[-1]]
+            for gid in nodes:
+                scene, results = evaluate(spec, f"grid id {gid} as reference point, table with the ids {order} in this order", F.const(gid))
+                if results is None:
+                    stop = True
+                    break
+                wg = wrong_blocks(scene, next(i for i in scene.grids if i["id"] == gid)["X"])
+                for res, _ in results:
+                    if wg(res):
+                        bad[gid] = wg(res)
+            if stop:
+                break
+            ctx.check(not bad, "rbgeom_uset: a grid id given as reference point stands for the location of that grid wherever its rows are in the table "
+                      f"(witness table: ids {order} in this order - the order of a USET table is the caller's; every grid id as reference)", fn,
+                      None if not bad else {"reference id -> grids (id: type) whose block is not about that grid": {str(k): v for k, v in bad.items()},
+                                            "consequence": "the modes are referred to another grid: an order of the ids was presupposed that nothing established"})
     # ---- type codes
     scene, results = evaluate(_PERMUTED, "table with the types in another order", N.as_arr(ref))
     if results is not None:
